@@ -582,7 +582,7 @@ def boundary_probe(ctx: Ctx):
                         r[-1] = x
                         det = make_detector(kind, 3, 0, 1, alpha)
                         got = bool(det(r, np.eye(d)))
-                        if float(det.metric) != target:
+                        if det.metric is None or float(det.metric) != target:
                             continue
                         st[what] += 1
                         ctx.case(("boundary", kind, alpha, d, what))
@@ -616,7 +616,7 @@ def scale_probe(ctx: Ctx):
                 mets, dets = [], []
                 for nis, r, s_mat in hist:
                     dets.append(bool(det(r * c, s_mat * (c * c))))
-                    mets.append(float(det.metric))
+                    mets.append(float(det.metric) if det.metric is not None else float("nan"))
                 n += 1
                 ctx.case(("scale", kind, rho, tuple(dims), c))
                 if ref is None:
